@@ -10,7 +10,7 @@ Local Ltac one_cause := split; [done|]; intros cw ->%elem_of_list_singleton.
 (* ---- layer 3 ---------------------------------------------------------------------------------------- *)
 Theorem step_spec3 s o : Inv3 s → StepSpec3 s o.
 Proof.
-  intros [Hinv Hrefs]. unfold StepSpec3. destruct o as [o| | | | | | | | |]; cbn [step3].
+  intros [Hinv Hrefs]. unfold StepSpec3. destruct o as [o| | | | | | | | | | |]; cbn [step3].
   - pose proof (step_spec (base s) Hinv o) as Hs. unfold StepSpec in Hs.
     destruct (step (base s) o) as [b r]. cbn in *. exact Hs.
   - unfold new_std_signal. destruct ot; cbn.
@@ -40,15 +40,22 @@ Proof.
     + split; [cbn; eauto|]. intros cw [[? _]|(_ & ? & _)]; done.
     + one_cause. left. right. split; [by eexists|done].
     + one_cause. left. left. done.
-  - unfold assign_attr. destruct oa as [a|]; [destruct verr as [c|]|]; cbn.
-    + one_cause. left. right. split; [by eexists|]. by exists c.
-    + split; [done|]. intros cw [[? _]|(_ & c & ? & _)]; done.
-    + one_cause. left. left. done.
+  - unfold assign_value, assign_attr. destruct oa as [a|]; cbn.
+    2: { one_cause. left. left. done. }
+    destruct (attrs s !! a) as [k|] eqn:Hk.
+    2: { cbn. one_cause. right. split; [|done]. intros Hw. destruct (Hw a eq_refl) as [? ?]. congruence. }
+    destruct (attr_verr k v) as [c|] eqn:Hv; cbn.
+    + one_cause. left. right. exists a, k, c. done.
+    + split; [intros ? [= <-]; by eexists|]. intros cw [[? _]|(a' & k' & c & [= <-] & Hk' & Hv' & _)]; [done|]. congruence.
   - unfold remove_assign. destruct (decide (key ∈ refs_of (assigns s) ent)); cbn.
     + split; [done|]. by intros cw [? _].
     + one_cause. left. done.
   - cbn. split; [done|]. by intros cw ?.
   - unfold bus_set_builder. destruct ocb; cbn; (split; [done|]; by intros cw ?).
+  - unfold new_attr, alloc3. cbn. split; [done|]. by intros cw ?.
+  - unfold attr_clone. destruct (attrs s !! a) as [k0|] eqn:Hk.
+    + unfold new_attr, alloc3. cbn. split; [by eexists|]. by intros cw ?.
+    + cbn. one_cause. right. split; [|done]. intros [? ?]. congruence.
 Qed.
 
 Theorem refused_iff_pre3 s o : Inv3 s → (is_err (step3 s o).2 = true ↔ ¬ pre3 s o).
